@@ -251,6 +251,10 @@ impl Sk {
                         for scope in self.scopes.iter_mut().rev() { if let Some(pos) = scope.iter().position(|(n, _)| *n == name) { moved = Some(scope.remove(pos).1); break; } }
                         if let Some(g) = moved { self.toks.push(Tok::RetGuard(g)); continue; }
                     }
+                    // `guard: this.guard`: a guard held by the consumed value is moved on, not re-acquired (C07)
+                    if let (syn::Member::Named(fname), Expr::Field(src)) = (&f.member, &f.expr) {
+                        if let syn::Member::Named(sname) = &src.member { if fname == "guard" && sname == "guard" { self.call("guard_moved"); continue; } }
+                    }
                     self.expr(&f.expr);
                 }
             }
@@ -300,6 +304,8 @@ const FUNCS: &[(&str, &str, &str, &str)] = &[
     ("src/entry.rs", "UntypedEntry", "write", ""),
     ("src/entry.rs", "EntryStorage", "read", ""),
     ("src/entry.rs", "EntryStorage", "get", ""),
+    ("src/entry.rs", "AssetReadGuard", "map", ""),
+    ("src/entry.rs", "AssetReadGuard", "try_map", ""),
     ("src/hot_reloading/records.rs", "", "record", ""),
     ("src/hot_reloading/records.rs", "", "no_record", ""),
     ("src/hot_reloading/records.rs", "", "add_record", ""),
